@@ -447,6 +447,8 @@ pub fn run_case(case: &Case, stats: &mut Stats) -> RunReport {
         let first = exec_op(op, &live[p].parser);
         stats.add("ticks.total", first.ticks);
         stats.max("ticks.max_per_op", first.ticks);
+        // how close the legitimately most expensive operation came to the T5 budget
+        stats.max("ticks.max_permille_of_budget", first.ticks.saturating_mul(1000) / budget_for(op).max(1));
         if let Op::Run { argv, .. } = op {
             let l: u64 = argv.iter().map(|a| a.len() as u64 + 1).sum::<u64>() + 8;
             stats.max("ticks.ratio_l2_x1000", first.ticks * 1000 / (l * l));
